@@ -5,6 +5,7 @@ import (
 	"encoding/hex"
 	"fmt"
 	"sort"
+	"strconv"
 	"strings"
 )
 
@@ -98,6 +99,8 @@ type modelRun struct {
 	offset     int
 	branchEval map[string]int // branch id -> evaluations so far
 	execCount  map[string]int // node path -> executions so far
+	bcount     map[string]int // state path -> body / post-handler updates so far
+	bview      map[string]int // state path -> bcount at the start of the current superstep
 	res        *ModelResult
 	// FailHit is set when an injected failure was reached
 	failPath string
@@ -108,7 +111,7 @@ func RunModel(p *Plan, in M) *ModelResult { return RunModelOffset(p, in, 0) }
 
 // RunModelOffset evaluates the plan with every branch script shifted by offset entries.
 func RunModelOffset(p *Plan, in M, offset int) *ModelResult {
-	mr := &modelRun{offset: offset, branchEval: map[string]int{}, execCount: map[string]int{}, res: &ModelResult{StateN: map[string]int{}, SubInputs: map[string][]M{}}}
+	mr := &modelRun{offset: offset, branchEval: map[string]int{}, execCount: map[string]int{}, bcount: map[string]int{}, bview: map[string]int{}, res: &ModelResult{StateN: map[string]int{}, SubInputs: map[string][]M{}}}
 	out, err := mr.run(p, "", "", in)
 	mr.res.Out, mr.res.Err = out, err
 	return mr.res
@@ -172,6 +175,9 @@ func (mr *modelRun) execNode(p *Plan, path, statePath string, n *Node, in M) (M,
 			in = M{}
 		}
 		in["pre:"+n.Key] = "1"
+		if p.SeenState {
+			in["seen:"+n.Key] = strconv.Itoa(mr.bview[statePath])
+		}
 		mr.res.StateN[statePath]++
 	}
 	var out M
@@ -185,6 +191,7 @@ func (mr *modelRun) execNode(p *Plan, path, statePath string, n *Node, in M) (M,
 		mr.res.Execs = append(mr.res.Execs, Exec{Path: full, Input: c})
 		if n.UseState {
 			mr.res.StateN[statePath]++
+			mr.bcount[statePath]++
 		}
 		if n.FailAt == idx {
 			mr.failPath = full
@@ -196,6 +203,8 @@ func (mr *modelRun) execNode(p *Plan, path, statePath string, n *Node, in M) (M,
 		sp := statePath
 		if n.Sub.State {
 			sp = full
+			// every execution of a stateful nested graph starts with a fresh state
+			mr.bcount[full], mr.bview[full] = 0, 0
 		}
 		o, err := mr.run(n.Sub, full, sp, in)
 		if err != ErrNone {
@@ -213,6 +222,7 @@ func (mr *modelRun) execNode(p *Plan, path, statePath string, n *Node, in M) (M,
 		}
 		out["post:"+n.Key] = "1"
 		mr.res.StateN[statePath]++
+		mr.bcount[statePath]++
 	}
 	return out, ErrNone
 }
@@ -301,6 +311,10 @@ func (mr *modelRun) runPregel(p *Plan, path, statePath string, in M) (M, string)
 			return nil, ErrNoTasks
 		}
 		mr.res.Steps++
+		if p.SeenState {
+			// what the pre-handlers of this superstep see: the updates of all earlier supersteps
+			mr.bview[statePath] = mr.bcount[statePath]
+		}
 		var ready []string
 		for k := range chans {
 			ready = append(ready, k)
